@@ -494,7 +494,7 @@ fn parse_qualified_rule(input: &mut StepParser, ss: &mut StyleSheetTransformer) 
             input.expect_colon()?;
             // (a pseudo-class name follows its colon directly: `: host` is not `:host`)
             let Ok(next) = input.next_including_whitespace() else {
-                return Ok(());
+                return Err(input.new_custom_error(()));
             };
             let mut invalid = match &*next {
                 // (pseudo-class names are ASCII case-insensitive)
@@ -503,8 +503,9 @@ fn parse_qualified_rule(input: &mut StepParser, ss: &mut StyleSheetTransformer) 
                 _ => return Err(input.new_custom_error(())),
             };
             let next = loop {
+                // (a selector that is never followed by a block is no rule: it is left to the ordinary path)
                 let Ok(next) = input.next() else {
-                    return Ok(());
+                    return Err(input.new_custom_error(()));
                 };
                 if *next != Token::CurlyBracketBlock {
                     if invalid.is_none() {
